@@ -22,6 +22,7 @@ def comp : Component where
   init := { sp := Spec.new, seen := [], maxInv := 0 }
   newCase := fun _ => some { sp := Spec.new, seen := [], maxInv := 0 }
   step := fun st ws => match ws with
+    | ["burst", _, _] => some (st, "ok")     -- version-uniqueness stress: judged by its Go-side monitor (C02-fresh-version)
     | inv :: ret :: _thread :: rest => do
       let inv ← inv.toNat?
       let ret ← ret.toNat?
